@@ -72,3 +72,19 @@ def run(chk):
         "behaviour); the table is compared with CalculateF after that call",
         "IAngle end-bead gradients, the central-bead gradient and the "
         "gradient sum are three separate violation keys"]
+
+
+def replay(path):
+    """re-run the check with the seed and tier recorded in the witness file and
+    report whether the same violation key shows up again (exit 1) or not (0)"""
+    import json
+    d = json.load(open(path))
+    chk = vf.Check(d["property"], d.get("tier", "quick"), int(d.get("seed", 1)))
+    run(chk)
+    hit = d["key"] in chk.violations or any(
+        vf._key_match(k, d["key"]) for k in chk.known_hit)
+    print("REPLAY property=%s key=%s seed=%s tier=%s: %s" % (
+        d["property"], d["key"], d.get("seed"), d.get("tier"),
+        "reproduced" if hit else "not reproduced"))
+    print("witness:", json.dumps(d.get("witness"))[:2000])
+    return 1 if hit else 0
